@@ -30,6 +30,7 @@ def run(ctx) -> None:
     r5_tables(ctx)
     r6_tracking(ctx)
     r7_walkers(ctx)
+    r8_state_conditions(ctx)
 
 
 # ------------------------------------------------------------------------------------------ R1
@@ -422,8 +423,12 @@ def r6_tracking(ctx) -> None:
             if "sigma.rule.detection.SigmaDetectionItem" in types:
                 n += 1
                 loc = f"{f.module.relpath}:{c.lineno}"
-                copied = any(isinstance(x, ast.Attribute) and x.attr == "applied_processing_items" and isinstance(x.ctx, ast.Store) for x in walk_no_nested(f.node))
-                if copied:
+                stores_t = [x for x in walk_no_nested(f.node) if isinstance(x, ast.Assign) and isinstance(x.targets[0], ast.Attribute) and x.targets[0].attr == "applied_processing_items"]
+                copied = bool(stores_t)
+                fresh = all(isinstance(x.value, ast.Call) and (call_name(x.value).endswith(".copy") or call_name(x.value) in ("set", "copy.copy", "copy.deepcopy")) for x in stores_t)
+                if copied and not fresh:
+                    r.violation("C13.R6", q, stmt_head(stores_t[0]), "the replacement items receive the original item's tracking set itself, not a copy: all siblings of a one-to-many mapping share one set, so a processing item applied to one of them is recorded on all and a processing_item_applied condition fires on items that were never processed", f"{f.module.relpath}:{stores_t[0].lineno}")
+                elif copied:
                     r.ok("C13.R6", q, "dataclasses.replace(...) followed by a copy of applied_processing_items", loc)
                 else:
                     r.violation("C13.R6", q, short(c, 100),
@@ -439,6 +444,63 @@ def r6_tracking(ctx) -> None:
         else:
             r.violation("C13.R6", f.qual, "detection.detection_items[i] = r; self.processing_item_applied(r)", "a replacement is not marked as applied by this processing item", f.loc)
     r.floor("C13.R6", 4)
+
+
+def r8_state_conditions(ctx) -> None:
+    from ..tabulate import Interp, Raised
+    r, prog = ctx.r, ctx.prog
+    r.rule("C13.R8", "processing-state conditions: match_state, tabulated over key unset / set to falsy and truthy values x every operator — False only for an unset key, otherwise the comparison the operator names")
+    f = prog.func("sigma.processing.conditions.state.ProcessingStateConditionBase.match_state")
+    import operator
+    ops = {"eq": operator.eq, "ne": operator.ne, "gte": operator.ge, "gt": operator.gt, "lte": operator.le, "lt": operator.lt}
+
+    class _Pipe:
+        def __init__(self, state):
+            self.state = state
+
+    class _Self:
+        def __init__(self, key, val, op):
+            self.key, self.val, self.op = key, val, op
+
+    wrong = []
+    n = 0
+    for state in ({}, {"k": 0}, {"k": 1}, {"k": 5}):
+        for val in (0, 1):
+            for op in ops:
+                it = Interp({"self": _Self("k", val, op), "processing_pipeline": _Pipe(state), "SigmaConfigurationError": lambda *a, **k: "SigmaConfigurationError"})
+                try:
+                    got = it.call(f.node.body)
+                except Raised as e:
+                    got = f"<raises {e}>"
+                want = False if "k" not in state else bool(ops[op](state["k"], val))
+                n += 1
+                if got != want:
+                    wrong.append(f"state={state} val={val} op={op}: {got} instead of {want}")
+    for state, val in (({"k": False}, False), ({"k": ""}, ""), ({"k": "x"}, "x")):
+        for op in ("eq", "ne"):
+            it = Interp({"self": _Self("k", val, op), "processing_pipeline": _Pipe(state), "SigmaConfigurationError": lambda *a, **k: "SigmaConfigurationError"})
+            try:
+                got = it.call(f.node.body)
+            except Raised as e:
+                got = f"<raises {e}>"
+            want = bool(ops[op](state["k"], val))
+            n += 1
+            if got != want:
+                wrong.append(f"state={state} val={val!r} op={op}: {got} instead of {want}")
+    if wrong:
+        r.violation("C13.R8", f.qual, f"state condition table: {wrong[0]}", f"{len(wrong)} of {n} tabulated cases deviate: a state value of 0, false or '' set by an earlier item is a set value, not an unset key — items gated on it would never (or always) act", f.loc)
+    else:
+        r.ok("C13.R8", f.qual, f"{n} cases (unset/falsy/truthy state x 6 operators): unset → False, set → the named comparison", f.loc)
+    # every state condition delegates to it with the pipeline it belongs to
+    users = 0
+    for q, g in sorted(prog.funcs.items()):
+        if g.module.name == "sigma.processing.conditions.state" and g.name in ("match", "match_field_name", "match_detection_item", "match_value") and g.cls is not None and prog.is_subclass(g.cls.qual, "sigma.processing.conditions.state.ProcessingStateConditionBase"):
+            users += 1
+            if any(isinstance(c, ast.Call) and call_name(c) == "self.match_state" for c in walk_no_nested(g.node)):
+                r.ok("C13.R8", q, "delegates to match_state", g.loc)
+            else:
+                r.violation("C13.R8", q, "self.match_state(...)", "state condition does not evaluate the pipeline state", g.loc)
+    r.floor("C13.R8", 3)
 
 
 # ------------------------------------------------------------------------------------------ R7
